@@ -28,6 +28,29 @@ def main():
     except core.subprocess.TimeoutExpired as e:
         print(f"{prop}: timeout in {e.cmd}", file=sys.stderr)
         return 2
+    except Exception as e:  # noqa: BLE001
+        # an exception nobody anticipated.  If it was raised inside /repo's code (the harness called it somewhere the
+        # unchanged code never raises), the correspondence is broken and that is reported; anything else is a fault of
+        # this machinery: exit 2, never a verdict.
+        import hashlib
+        import json
+        import traceback
+        tb = traceback.extract_tb(e.__traceback__)
+        text = "".join(traceback.format_exception(type(e), e, e.__traceback__))
+        print(text, file=sys.stderr)
+        repo = os.path.realpath(core.REPO) + os.sep
+        if tb and os.path.realpath(tb[-1].filename).startswith(repo):
+            os.makedirs(os.path.join(core.VERIF, "replays"), exist_ok=True)
+            name = f"{prop}-{hashlib.sha1(text.encode()).hexdigest()[:12]}.json"
+            with open(os.path.join(core.VERIF, "replays", name), "w", encoding="utf-8") as fh:
+                json.dump({"property": prop, "kind": "broken-obligation",
+                           "obligations": ["correspondence: the code under test raised where the harness calls it outside "
+                                           "every per-case handler (the unchanged code never does)"],
+                           "exception": repr(e), "traceback": text[-4000:], "seed": seed, "tier": tier,
+                           "cmd": f"bin/check {prop} {tier}", "repo": core.REPO}, fh, indent=1)
+            print(f"VIOLATION property={prop} replay=replays/{name} no-failing-input-found")
+            return 1
+        return 2
 
 
 if __name__ == "__main__":
